@@ -13,6 +13,7 @@ CONSTANTS
   EntModes = {"first"}
   EpChoices = {0}
   CfgModes = {"full"}
+  AddrModes = {TRUE}
   TgtChoices = {0}
   ScopeKinds = {}
   Positions = {}
